@@ -16,6 +16,7 @@ import (
 	"fmt"
 	"strconv"
 	"strings"
+	"time"
 
 	"verif/harness/hx"
 )
@@ -561,5 +562,5 @@ func c12Shrink(input string) []string {
 }
 
 func init() {
-	hx.Register(&hx.Prop{ID: "C12", Gen: c12Gen, Exec: c12Exec, Shrink: c12Shrink})
+	hx.Register(&hx.Prop{ID: "C12", Gen: c12Gen, Exec: c12Exec, Shrink: c12Shrink, Timeout: 90 * time.Second})
 }
